@@ -13,6 +13,7 @@
 (*   sub     amplifier settings: sequence of [variety, gain, voa, dp] (one entry for an Edfa, one per band for  *)
 (*           a multiband amplifier; <<>> for other elements); NONE = not set                                   *)
 (*   origin  "" or the uid of the input fibre this span was cut from                                           *)
+(*   opt     "" or a tag of further user parameters the generator put on the element (carried, not judged)     *)
 (* Settings S: [padding, eol, conIn, conOut (micro-dB), maxLen (length unit), powerMode (BOOLEAN), lib (set of  *)
 (* amplifier type varieties of the equipment library)].                                                        *)
 (* Every clause of C08 is an operator over (In, G, S): the topology given to auto-design, the designed graph,   *)
